@@ -442,6 +442,15 @@ class PE(object):
   def _exec_toplevel(self, st, module, g):
     if isinstance(st, ast.FunctionDef):
       g[st.name] = Func(st, module, [], st.name)
+      # default values are computed once, when the def statement runs (not
+      # at call time): a default that calls something keeps the answer it
+      # got at import, a mutable default is one shared object
+      cache = self.__dict__.setdefault("_def_defaults", {})
+      for di, d in enumerate(st.args.defaults):
+        try:
+          cache[(id(st), di)] = self.eval(d, [g], module)
+        except (Unsupported, ConfigRejected, PyRaise, _Return):
+          pass
     elif isinstance(st, ast.ClassDef):
       g[st.name] = ClassRef(module.classes[st.name])
     elif isinstance(st, (ast.Import, ast.ImportFrom)):
@@ -1474,7 +1483,11 @@ class PE(object):
         else:
           di = i - (len(params) - ndef)
           if di >= 0:
-            local[p] = self.eval(defaults[di], list(f.closure), f.module)
+            cached = getattr(self, "_def_defaults", {})
+            if (id(node), di) in cached:
+              local[p] = cached[(id(node), di)]
+            else:
+              local[p] = self.eval(defaults[di], list(f.closure), f.module)
           else:
             raise PyRaise("TypeError", "%s() missing argument %s" %
                           (f.name, p))
